@@ -153,6 +153,8 @@ func (r *Run) AllTasksDone() bool {
 	return true
 }
 
+const hugeHorizon = 24 * time.Hour
+
 type EndReason int
 
 const (
